@@ -42,6 +42,69 @@ def make_tissue(wd, r, kind, t):
     return m
 
 
+def division_oracle(V, exe, r, tier, stats):
+    """translation invariance ACROSS A DIVISION: the interface triangulation is sampled from the clock, so daughters are not
+    comparable node by node; what must agree between a run and its translate are the quantities that do not depend on that
+    sampling: number of cells, the two daughter volumes and their centres (minus t).  The mother's mesh is finer than l_min, so the
+    refinement changes its area in the iterations around the division (a plane placed with a stale, origin-scaled weight shows)."""
+    st = stats.setdefault("division_oracle", {"pairs": 0, "divided_in_both": 0, "retries": 0, "worst_volume_rel": 0.0, "worst_centre_over_size": 0.0})
+    npairs = 2 if tier == "quick" else 8
+    for k in range(npairs):
+        ratio = [25.0, 1e3, 200.0, 3.0][k % 4]
+        d = [r.normal() for _ in range(3)]
+        n = math.sqrt(sum(x * x for x in d))
+        t = [x / n * ratio * SIZE for x in d]
+        radius = 5e-6 * r.uniform(0.9, 1.1)
+        stretch = (1.0, r.uniform(0.75, 0.9), r.uniform(1.15, 1.35))
+        vol = 4.0 / 3.0 * math.pi * radius ** 3 * stretch[0] * stretch[1] * stretch[2]
+        ov = {"perform_initial_triangulation": "0", "avg_division_volume": repr(0.7 * vol), "std_division_volume": "0", "std_growth_rate": "0"}
+        obs = {}
+        for attempt in range(4):
+            for tag, tt in (("ref", (0.0, 0.0, 0.0)), ("tr", t)):
+                with SC.Workdir() as wd:
+                    cells = [SC.icosphere(3, radius, (tt[0], tt[1], tt[2]), stretch, 0.1) + (0,)]
+                    m = os.path.join(wd, "d.vtk")
+                    SC.write_vtk(m, cells)
+                    params = SC.make_params(wd, m, "7.5e-7", ov, {})
+                    res = SC.run(exe, params, 8, 1, 8)
+                    what, key = SC.classify(res["rc"], res["err"])
+                    if what:
+                        V.fail_input("%s [division scenario, offset %g sizes]" % (what, ratio if tag == "tr" else 0.0),
+                                     {"part": "division-oracle", "pair": k, "offset_over_size": ratio, "radius": radius, "stretch": stretch}, key=key)
+                        return
+                    snaps = SC.parse_states(res["out"])
+                    last = snaps[-1] if snaps else None
+                    cellsL = []
+                    for c in (last["cells"] if last else []):
+                        P = [vlib.unhex(x) for x in c["P"] if x != "-"]
+                        nn = len(P) // 3
+                        ctr = [sum(P[3 * i + q] for i in range(nn)) / nn - tt[q] for q in range(3)]
+                        cellsL.append((vlib.unhex(c["vol"]), ctr))
+                    obs[tag] = sorted(cellsL, key=lambda x: x[1][2])       # order along z (the long axis)
+            if len(obs["ref"]) == 2 and len(obs["tr"]) == 2:
+                break
+            st["retries"] += 1      # the random interface triangulation can make a division fail on its own: play the pair again
+        st["pairs"] += 1
+        inp = {"part": "division-oracle", "pair": k, "offset_over_size": ratio, "translation": t, "radius": radius, "stretch": stretch}
+        if len(obs["ref"]) != len(obs["tr"]):
+            if len(obs["ref"]) == 2 or len(obs["tr"]) == 2:
+                V.fail_input("two runs that differ by a translation of %g cell sizes end with different numbers of cells after the division iteration (4 attempts): %d vs %d"
+                             % (ratio, len(obs["ref"]), len(obs["tr"])), inp)
+            continue
+        if len(obs["ref"]) != 2:
+            continue
+        st["divided_in_both"] += 1
+        for (va, ca), (vb, cb) in zip(obs["ref"], obs["tr"]):
+            dv = abs(va - vb) / max(va, vb)
+            dc = math.sqrt(sum((ca[q] - cb[q]) ** 2 for q in range(3))) / (2 * radius)
+            st["worst_volume_rel"] = max(st["worst_volume_rel"], dv)
+            st["worst_centre_over_size"] = max(st["worst_centre_over_size"], dc)
+            if dv > 0.03 or dc > 0.05:       # measured noise of the sampled interface on the unchanged tree: volume <= 0.8 %, centre <= 1.5 % of the size
+                V.fail_input("after a division the daughters of a run and of its translate by %g cell sizes differ beyond the noise of the sampled interface: "
+                             "volume %.4g vs %.4g (%.1f %%), centre displaced by %.3g cell sizes" % (ratio, va, vb, 100 * dv, dc), inp)
+                break
+
+
 def translations(r):
     out = []
     for ratio in (1e-2, 1.0, 30.0, 1e3):
@@ -153,6 +216,8 @@ def run(ctx):
     CRM.run_remesh(V, "thorough" if (tier == "thorough" or not proofR["ok"]) else "quick", seed, remesh)      # widens when a proof broke
     r = vlib.Rng(seed)
     exe, rebuilt = SC.build("asan")
+    divstats = {}
+    division_oracle(V, exe, vlib.Rng(seed).fork("c14/division"), tier, divstats)
     wide = tier == "thorough" or not (proof["ok"] and proofP["ok"] and proofT["ok"] and proofR["ok"])
     kinds = ["single", "separated", "adhering", "overlapping-mixed"]
     evaluations = 0
@@ -211,6 +276,7 @@ def run(ctx):
         "proof_failures": proof["failures"] + proofP["failures"] + proofT["failures"] + proofR["failures"],
         "assembled_tissue_iteration": tissue,
         "assembled_iteration_with_remeshing": remesh,
+        "division_oracle": divstats.get("division_oracle"),
         "assembled_single_cell_iteration": pipe.get("stats"), "translator": {k: v.get("sha256", v.get("error")) for k, v in gen.items()},
         "evaluations": evaluations + tissue.get("oracle_runs", 0) + len(tissue.get("scenarios", [])) + remesh.get("oracle_runs", 0) + len(remesh.get("scenarios", [])), "distinct_nontrivial": len(distinct),
         "rule": "pairs of real solver runs (generated tissues: single cell, separated, adhering, overlapping cells of mixed types; 40-300 iterations, deterministic parameters) that differ by a translation of the input file (offset/size 1e-2 .. 1e3 and 1e5, random directions, one straddling the origin); distinct = distinct (tissue, offset ratio, swap flag)",
